@@ -2075,7 +2075,7 @@ def main(tier, replay=None):
     cases = gen_cases(rng, tier, chk, K)
     lap("generate")
     impl_in = "".join("%s%s %s\n" % ("@%s " % c["way"] if c.get("way") else "", c["v"], " ".join(str(x) for x in c["args"])) for c in cases)
-    rc, iout, ierr = vf.run_lines(himpl, impl_in, timeout=3000, args=["12" if tier == "quick" else "90"])
+    rc, iout, ierr = vf.run_lines(himpl, impl_in, timeout=3000, args=["5" if tier == "quick" else "60"])
     if rc == 124 and "[timeout]" in ierr:
         inconclusive.append("the implementation harness did not finish %d cases within 50 minutes (machine load): no verdict from this run" % len(cases))
         chk.cov["inconclusive"], chk.cov["floor_missed"] = True, ["oracle_comparisons", "correspondence_comparisons", "scripted_walk_comparisons"]
@@ -2088,7 +2088,7 @@ def main(tier, replay=None):
     # a call that did not return within its CPU budget is re-run ALONE with 5x the budget before it is called a hang
     hung = [i for i, o in enumerate(iout) if o.startswith("HANG")]
     if hung:
-        big = "60" if tier == "quick" else "450"
+        big = "25" if tier == "quick" else "300"
         redo = "".join("%s%s %s\n" % ("@%s " % cases[i]["way"] if cases[i].get("way") else "", cases[i]["v"], " ".join(str(x) for x in cases[i]["args"])) for i in hung[:6])
         rc2, o2, e2 = vf.run_lines(himpl, redo.replace(".ip ", ".ipx ") if False else redo, timeout=3000, args=[big])
         back = 0
